@@ -78,7 +78,7 @@ func (rc *ruleCtx) events() {
 		}
 	}
 	rc.s.Check(okErr, "V13", dkey(pre+"Error(err) exactly on the Wait-failed edge with the returned error"), rc.pos(x.WaitIf), "", pre+"Error is not emitted exactly once on the failure edge carrying the error the directive returns")
-	okSuc := len(sucS) == 1 && sucS[0].inLit == x.In.Wrapper && x.afterWaitOK(sucS[0].call) && x.Par[x.Par[sucS[0].call]] == ast.Node(x.Body)
+	okSuc := len(sucS) == 1 && sucS[0].inLit == x.W && x.afterWaitOK(sucS[0].call) && x.Par[x.Par[sucS[0].call]] == ast.Node(x.Body)
 	if okSuc {
 		// nothing but the final `return nil` may follow; no return between WaitIf and Success
 		after := false
